@@ -113,6 +113,15 @@ def fixed_workspaces():
         ws.meta = {"fixed": "installed plugin fixture requests a project fixture" + (" that a test requests too" if also_project else ""),
                    "keep_venv": True}
         out.append(ws)
+    # a fixture defined exactly ONCE and requested only from a file that cannot see it (another package): the request
+    # resolves to nothing, the definition is unused (seed C20-m: a single-definition shortcut that skips resolution)
+    ws = wsgen.WS()
+    ca = PyFile(); ca.fixture("only_a"); ca.fixture("seen_a"); ws.add("pkg_a/conftest.py", ca)
+    ta = PyFile(); ta.test("test_a", params=("seen_a",)); ws.add("pkg_a/test_a.py", ta)
+    tb = PyFile(); tb.test("test_b", params=("only_a", "seen_a")); ws.add("pkg_b/test_b.py", tb)
+    ws.order = list(ws.files)
+    ws.meta = {"fixed": "single definition requested only from out of scope"}
+    out.append(ws)
     return out
 
 
